@@ -42,7 +42,7 @@ def mc_env(n, w, bug="none", full=False):
 def model_check(ctx, thorough):
     """The specification itself.  Failures raise Infra (exit 2), never a VIOLATION."""
     def mc(n, w, full, **kw):
-        r = vlib.tlc_mc(ctx, "MC_BitfieldImpl", "MC_BitfieldImpl.cfg", env=mc_env(n, w, "none", full), **kw)
+        r = vlib.tlc_mc(ctx, "MC_BitfieldImpl", "MC_BitfieldImpl.cfg", env=mc_env(n, w, "none", full), xmx="3g", **kw)
         ctx.mc_runs[-1]["constants"] = {"N": n, "W": w, "Bug": "none", "FullOps": full}
         return r
     # every operation record (aliases included) on the small enums, all word widths
@@ -58,14 +58,16 @@ def model_check(ctx, thorough):
     # (simulate=k generates k behaviours per worker; the algebraic Laws are left to the exhaustive runs)
     for n, w in ([(17, w) for w in WORDS] if thorough else [(9, 16), (17, 8), (17, 16)]):
         r = vlib.tlc_mc(ctx, "MC_BitfieldImpl", "MC_BitfieldImpl_sim.cfg", env=mc_env(n, w, "none", False), workers=4,
-                        simulate=(5000 if thorough else 250), depth=40, seed=ctx.seed, timeout=2400)
+                        simulate=(5000 if thorough else 100), depth=40, seed=ctx.seed, timeout=2400)
         ctx.mc_runs[-1]["constants"] = {"N": n, "W": w, "Bug": "none", "FullOps": False}
     # vacuity guards: each invariant CAN fail - with one defect re-introduced into the transcription
     # TLC must find a counterexample to the named invariant
+    # (shallow counterexamples only: the guards must stay cheap when the machine is busy)
     guards = [
+        (1, 8, "not_padding", "EqualSetsEqualWords"),
         (3, 8, "not_padding", "EqualSetsEqualWords"),
-        (9, 8, "not_padding", "EqualSetsEqualWords"),
-        (9, 16, "not_padding", "ObserversAgree"),
+        (3, 16, "not_padding", "ObserversAgree"),
+        (9, 8, "not_padding", "NoPadding"),
         (17, 64, "not_padding", "NoPadding"),
         (3, 8, "xor_as_or", "Refines"),
         (9, 8, "offset_div", "Refines"),
@@ -78,12 +80,13 @@ def model_check(ctx, thorough):
             raise vlib.Infra("vacuity guard: Bug=%s N=%d W=%d did not violate %s" % (bug, n, w, inv))
         ctx.extra.setdefault("vacuity_guards", []).append(
             {"constants": {"N": n, "W": w, "Bug": bug}, "violates": inv, "states": r.distinct})
-    # and the converse sanity law: when the enumerators fill the words exactly there is no padding
-    # and the old operator~ is indistinguishable from the repaired one
-    r = vlib.tlc("MC_BitfieldImpl", "MC_BitfieldImpl.cfg", workers=4, env=mc_env(8, 8, "not_padding", False), timeout=900)
-    if not r.completed:
-        raise vlib.Infra("Bug=not_padding must be unobservable for 8 enumerators in 8-bit words")
-    ctx.extra["vacuity_guards"].append({"constants": {"N": 8, "W": 8, "Bug": "not_padding"}, "violates": None, "states": r.distinct})
+    # and the converse sanity law (thorough): when the enumerators fill the words exactly there is no
+    # padding and the old operator~ is indistinguishable from the repaired one
+    if thorough:
+        r = vlib.tlc("MC_BitfieldImpl", "MC_BitfieldImpl.cfg", workers=8, env=mc_env(8, 8, "not_padding", False), timeout=2400)
+        if not r.completed:
+            raise vlib.Infra("Bug=not_padding must be unobservable for 8 enumerators in 8-bit words")
+        ctx.extra["vacuity_guards"].append({"constants": {"N": 8, "W": 8, "Bug": "not_padding"}, "violates": None, "states": r.distinct})
     ctx.extra["coverage_note"] = ("the lock-step model has one parameterised action; operation coverage is measured on the "
                                   "emitted scripts (every operation name must be the last step of some script)")
 
@@ -128,6 +131,7 @@ def harness_failure(ctx, what, rc, out, tail, payload):
 def judge_lines(ctx, lines, origin):
     """lines: list of (text, payload-args).  Judges them in batches; rejects what the spec cannot explain."""
     batch = 400000
+    rejected = set()
     for start in range(0, len(lines), batch):
         part = lines[start:start + batch]
         path = os.path.join(ctx.workdir, "judge_%s_%d.ndjson" % (origin, start))
@@ -140,6 +144,7 @@ def judge_lines(ctx, lines, origin):
         ctx.extra["record_chunks"] = ctx.extra.get("record_chunks", 0) + min(vlib.NCPU, len(part))
         recs = []
         for b in bad:
+            rejected.add(start + b["l"] - 1)
             text, args = part[b["l"] - 1]
             if "HARNESS-PRECONDITION" in b["why"] or "unknown-record-kind" in b["why"] or b["op"] == "?":
                 raise vlib.Infra("the judge could not interpret record %d of %s (%s): %s" % (b["l"], path, b["why"], text[:300]))
@@ -152,6 +157,65 @@ def judge_lines(ctx, lines, origin):
                 ctx.reject(signature(why), "%s record (n=%d, w=%d, %s): the specification cannot explain %s; record: %s" % (
                     b["op"], rec["n"], rec["w"], origin, why, text[:600]), {"args": args, "record": rec, "reason": why})
         os.unlink(path)
+    return rejected
+
+
+def toggle0(xs):
+    return xs[1:] if xs and xs[0] == 0 else [0] + xs
+
+
+def binding_guard(ctx, lines, rejected):
+    """Copies of ACCEPTED records with one observation changed must be rejected by the judge, an
+    untouched copy accepted - otherwise the judge is not looking at the data.  Independent of the
+    verdict about the code."""
+    first = {}
+    for k, (text, _) in enumerate(lines):
+        if k in rejected:
+            continue
+        m = re.match(r'\{"f":"(\w+)"', text)
+        if m and m.group(1) not in first and (m.group(1) != "hist" or '"ops":[]' not in text):
+            first[m.group(1)] = json.loads(text)
+        if len(first) == 7:
+            break
+    out, want = [], set()
+
+    def add(r, must):
+        out.append(json.dumps(r, separators=(",", ":")))
+        if must:
+            want.add(len(out))
+    for f, r in sorted(first.items()):
+        add(r, False)
+        c = json.loads(json.dumps(r))
+        if f == "pair":
+            c["xor"][0] = toggle0(c["xor"][0])
+        elif f == "rel":
+            c["rel"][0] = 1 - c["rel"][0]
+        elif f == "single":
+            c["not"][0] = toggle0(c["not"][0])
+        elif f == "elem":
+            c["g"] = 1 - c["g"]
+        elif f == "build":
+            c["r"][0] = toggle0(c["r"][0])
+        elif f == "tree":
+            c["q"][2][4] = 1 - c["q"][2][4]
+        elif f == "hist":
+            c["obs"][-1]["x"] = toggle0(c["obs"][-1]["x"])
+        add(c, True)
+    if len(want) < 5:
+        raise vlib.Infra("binding guard: only %d corrupted records could be formed" % len(want))
+    path = os.path.join(ctx.workdir, "judge_corrupted.ndjson")
+    with open(path, "w") as fh:
+        fh.write("\n".join(out) + "\n")
+    bad = vlib.judge_trace(ctx, JUDGE, JUDGE_CFG, path, nchunks=1, boundary_key=None, timeout=900)
+    os.unlink(path)
+    why = {b["l"]: set(b["why"]) for b in bad}
+    # out = untouched copy, corrupted copy, untouched, corrupted, ...: every corrupted copy must be
+    # rejected.  (Its original is normally accepted; when the code is defective it may itself be rejected.)
+    for k in sorted(want):
+        if not why.get(k):
+            raise vlib.Infra("binding guard: the judge did not notice the corruption of record %d: %s" % (k, out[k - 1][:300]))
+    ctx.extra["binding_guard_originals_accepted"] = sum(1 for k in want if not why.get(k - 1))
+    ctx.extra["binding_guard"] = {"corrupted_records": len(want), "all_rejected": True}
 
 
 def count_classes(ctx, lines, cap=150000):
@@ -259,7 +323,8 @@ def run(ctx):
                         ctx.sample({"recorded": json.loads(text)})
                         break
             strides.append(count_classes(ctx, lines))
-            judge_lines(ctx, lines, "recorded")
+            rejected = judge_lines(ctx, lines, "recorded")
+            binding_guard(ctx, lines, rejected)
     finally:
         th.join()
     if mc_err:
